@@ -78,7 +78,9 @@ def build(r):
         undef = i < nundef
         syms.append(_sym(cls, bo, offs[nm], 0 if undef else 0x1000 + 16 * i, r.choice([0, 4, 64]), 0x12 if not undef else 0x10,
                          0, 0 if undef else 1))
-    dynsym = b''.join(syms)
+    symsize = 16 if cls == 32 else 24
+    entsize = symsize + r.choice([0, 0, 0, 8, 16])        # entries may be larger than the structure (sh_entsize rules)
+    dynsym = b''.join(x + bytes(r.getrandbits(8) for _ in range(entsize - symsize)) for x in syms)
     nsyms_total = len(syms)
     # --- .gnu.hash
     bloom = [0] * bloom_size
@@ -133,7 +135,6 @@ def build(r):
         body += data
     body += bytes(-len(body) % 8)
     shoff = len(body)
-    symsize = 16 if cls == 32 else 24
 
     def shdr(name, typ, flags, off, size, link, info, align, entsize):
         f = [nameoff.get(name, 0), typ, flags, 0, off, size, link, info, align, entsize]
@@ -142,7 +143,7 @@ def build(r):
         w = [4, 4, 8, 8, 8, 8, 4, 4, 8, 8]
         return b''.join(x.to_bytes(n, bo) for x, n in zip(f, w))
     body += bytes(shsize)
-    body += shdr('.dynsym', 11, 2, places['.dynsym'][0], places['.dynsym'][1], 2, 1, 8, symsize)
+    body += shdr('.dynsym', 11, 2, places['.dynsym'][0], places['.dynsym'][1], 2, 1, 8, entsize)
     body += shdr('.dynstr', 3, 2, places['.dynstr'][0], places['.dynstr'][1], 0, 0, 1, 0)
     body += shdr('.gnu.hash', 0x6ffffff6, 2, places['.gnu.hash'][0], places['.gnu.hash'][1], 1, 0, 8, 0)
     body += shdr('.hash', 5, 2, places['.hash'][0], places['.hash'][1], 1, 0, 4, 4)
@@ -157,7 +158,7 @@ def build(r):
             bytes(4) + ehsize.to_bytes(2, bo) + (56).to_bytes(2, bo) + bytes(2) + shsize.to_bytes(2, bo) + (6).to_bytes(2, bo) + (5).to_bytes(2, bo)
     body[:ehsize] = eh
     desc = dict(cls=cls, little=le, nsym=nsyms_total, symoffset=symoffset, nbuckets=nb, bloom_size=bloom_size, bloom_shift=bloom_shift,
-                sysv_nbucket=snb, sysv_tail=tail)
+                sysv_nbucket=snb, sysv_tail=tail, entsize=entsize, truth=dict(names=[''] + order))
     return bytes(body), desc
 
 
@@ -233,18 +234,32 @@ def build_dynamic(r):
     have_gnu = r.random() < 0.75 and bool(hashed)     # a GNU table is only emitted when it hashes something
     have_sysv = (not have_gnu) or r.random() < 0.6
 
-    def rel_entries(n):
+    mips64 = cls == 64 and r.random() < 0.2          # the ELF64 MIPS r_info layout: sym word + four type bytes
+    truth_rel = {}
+
+    def rel_entries(n, label):
         out = b''
+        tr = []
         for i in range(n):
             sym = r.randrange(0, ntot)
             typ = r.choice([1, 6, 7, 8])
-            info = (sym << 8 | typ) if cls == 32 else (sym << 32 | typ)
-            out += (0x3000 + 8 * i).to_bytes(w, bo) + info.to_bytes(w, bo)
+            off = 0x3000 + 8 * i
+            if mips64:
+                t2, t3, ss = r.choice([0, 0, 18]), r.choice([0, 0, 24]), r.choice([0, 1])
+                out += off.to_bytes(w, bo) + sym.to_bytes(4, bo) + bytes([ss, t3, t2, typ])
+            else:
+                info = (sym << 8 | typ) if cls == 32 else (sym << 32 | typ)
+                out += off.to_bytes(w, bo) + info.to_bytes(w, bo)
+            add = None
             if rela:
-                out += (r.choice([0, 1, 16, (1 << (8 * w)) - 8])).to_bytes(w, bo)
+                a = r.choice([0, 1, 16, (1 << (8 * w)) - 8])
+                out += a.to_bytes(w, bo)
+                add = a - (1 << (8 * w)) if a >= 1 << (8 * w - 1) else a
+            tr.append([off, sym, typ, add])
+        truth_rel[label] = tr
         return out
-    reldyn = rel_entries(r.choice([0, 1, 3, 6]))
-    relplt = rel_entries(r.choice([0, 1, 2, 5]))
+    reldyn = rel_entries(r.choice([0, 1, 3, 6]), 'RELA' if rela else 'REL')
+    relplt = rel_entries(r.choice([0, 1, 2, 5]), 'JMPREL')
     relr = b''
     if r.random() < 0.35:
         words = [0x4000]
@@ -253,6 +268,19 @@ def build_dynamic(r):
         if r.random() < 0.5:
             words.append(0x8000)
         relr = b''.join(x.to_bytes(w, bo) for x in words)
+        # reference expansion (the RELR proposal): an even word is an address, an odd word a bitmap for the following words
+        exp = []
+        where = None
+        for e in words:
+            if e & 1 == 0:
+                exp.append(e)
+                where = e + w
+            else:
+                for i in range(8 * w - 1):
+                    if (e >> (i + 1)) & 1:
+                        exp.append(where + i * w)
+                where += (8 * w - 1) * w
+        truth_rel['RELR'] = exp
     relsz = 3 * w if rela else 2 * w
     # ---- layout: segment 1 (read-only tables) then segment 2 (.dynamic, init_array)
     ehsize = 52 if cls == 32 else 64
@@ -373,6 +401,8 @@ def build_dynamic(r):
         phdr(2, 6, dyn_off, va2(dyn_off), len(dynamic), len(dynamic), w)
     ident = b'\x7fELF' + bytes([1 if cls == 32 else 2, 1 if le else 2, 1, 0]) + bytes(8)
     machine = (62 if rela else 183) if cls == 64 else (3 if not rela else 40)
+    if mips64:
+        machine = 8
     if cls == 32:
         eh = ident + (3).to_bytes(2, bo) + machine.to_bytes(2, bo) + (1).to_bytes(4, bo) + bytes(4) + ehsize.to_bytes(4, bo) + shoff.to_bytes(4, bo) + \
             bytes(4) + ehsize.to_bytes(2, bo) + phsize.to_bytes(2, bo) + (3).to_bytes(2, bo) + shsize.to_bytes(2, bo) + \
@@ -383,6 +413,14 @@ def build_dynamic(r):
             len(present).to_bytes(2, bo) + index['.shstrtab'].to_bytes(2, bo)
     body[:ehsize] = eh
     body[ehsize:ehsize + len(ph)] = ph
+    if not reldyn:
+        truth_rel.pop('RELA' if rela else 'REL', None)
+    if not relplt:
+        truth_rel.pop('JMPREL', None)
+    strs = {1: 'needed', 14: 'soname', 15: 'rpath', 29: 'runpath'}
+    rev = {v: k for k, v in soff.items()}
+    truth = dict(tags=[[t, v] for t, v in tags], strings=[[t, rev[v]] for t, v in tags if t in strs],
+                 symbols=[['', 0]] + [[nm, 0 if i < nundef else 0x2000 + 16 * i] for i, nm in enumerate(order)], rel=truth_rel)
     desc = dict(cls=cls, little=le, rela=rela, nsym=ntot, have_gnu=have_gnu, have_sysv=have_sysv, relr=bool(relr),
-                ntags=len(tags), libs=len(libs))
+                ntags=len(tags), libs=len(libs), mips64=mips64, truth=truth)
     return bytes(body), desc
